@@ -185,6 +185,23 @@ Proof.
     rewrite Hs, andb_false_r, (IH Hr). reflexivity.
 Qed.
 
+Lemma split_options_pre_sep (sep : ascii) pre opts :
+  (Ascii.eqb sep ")" || is_blank sep) = true ->
+  all_chars nos pre = true -> starts_option opts = true ->
+  split_options (pre ++ String sep opts) = ((pre ++ String sep "")%string, opts).
+Proof.
+  intros Hsep Hp Ho. induction pre as [|c r IH].
+  - cbn [append split_options]. rewrite Hsep, Ho. reflexivity.
+  - cbn [all_chars] in Hp. apply andb_true_iff in Hp. destruct Hp as [Hc Hr].
+    cbn [append split_options].
+    assert (starts_option (r ++ String sep opts) = false) as Hs.
+    { destruct r as [|d r']; cbn [append starts_option].
+      - unfold is_blank in Hsep. clear - Hsep. ascii_cases sep; cbv in Hsep |- *; try reflexivity; discriminate.
+      - cbn [all_chars] in Hr. apply andb_true_iff in Hr. destruct Hr as [Hd _].
+        unfold nos in Hd. apply negb_true_iff in Hd. exact Hd. }
+    rewrite Hs, andb_false_r, (IH Hr). reflexivity.
+Qed.
+
 (* ---- LIKE_RE finds nothing in a text without letters ---- *)
 Definition nonletter (c : ascii) : bool := negb (is_letter c).
 
@@ -281,6 +298,78 @@ Section CellText.
     unfold name at 1. cbv beta iota. cbn [bind]. cbv beta iota.
     rewrite (lower_keeps_nonletter _ Hnl), (like_target_none _ Hnl). reflexivity.
   Qed.
+
+  (* the same with the options glued to the closing parenthesis that ends the
+     geometry:  name material geometry)options  (sep = ")"), or after a blank
+     (sep = " ") *)
+  Theorem void_card_text_sep (sep : ascii) name m G opts z :
+    (sep = " "%char \/ sep = ")"%char) ->
+    all_digits name = true -> is_empty name = false ->
+    all_chars nos m = true -> all_chars nonblank m = true -> is_empty m = false ->
+    fl P m = Some z -> seqb Sc z (s0 Sc) = true ->
+    all_chars nos G = true -> starts_option opts = true ->
+    card_of_text Sc P (name ++ " " ++ m ++ " " ++ G ++ String sep opts) =
+    Ok (Z.of_N (parse_digits name 0%N),
+        (Explicit (" " ++ m)%string (" " ++ G ++ String sep "")%string, opts)).
+  Proof.
+    intros Hsep Hn Hne Hm Hmb Hme Hfl Hz HG Ho.
+    assert (nos sep = true /\ nonletter sep = true /\ (Ascii.eqb sep ")" || is_blank sep) = true) as (Hs1 & Hs2 & Hs3)
+      by (destruct Hsep as [-> | ->]; repeat split; reflexivity).
+    pose proof (all_digits_chars name Hn) as Hnd.
+    assert (all_chars nos name = true /\ all_chars nonblank name = true) as [Hnn Hnb].
+    { split; eapply all_chars_impl; try exact Hnd; intros c Hc; apply (digit_nos c Hc). }
+    set (txt := (name ++ " " ++ m ++ " " ++ G ++ String sep opts)%string).
+    (* the words *)
+    assert (exists x xs, split_ws txt = name :: m :: x :: xs) as (x & xs & Hw).
+    { unfold txt. change (name ++ " " ++ m ++ " " ++ G ++ String sep opts)%string
+        with (name ++ String " " (m ++ String " " (G ++ String sep opts)))%string.
+      rewrite (split_ws_word name _ Hnb Hne), (split_ws_word m _ Hmb Hme).
+      destruct (split_ws (G ++ String sep opts)) as [|x xs] eqn:E.
+      - exfalso. revert E. unfold split_ws. apply split_ws_aux_nonnil. right.
+        destruct opts as [|c r]; [discriminate|]. exists (G ++ String sep "")%string, c, r. split.
+        + rewrite append_assoc'. reflexivity.
+        + cbn in Ho. unfold nonblank, is_blank. ascii_cases c; cbv in Ho |- *; try reflexivity; discriminate.
+      - exists x, xs. reflexivity. }
+    (* not a LIKE card *)
+    assert (String.eqb (lower m) "like" = false) as Hlk.
+    { destruct m as [|c r]; [discriminate|]. cbn [all_chars] in Hm. apply andb_true_iff in Hm.
+      destruct Hm as [Hc _]. cbn [lower String.eqb].
+      replace (Ascii.eqb (lower_char c) "l") with false; [reflexivity|].
+      symmetry. clear - Hc. ascii_cases c; cbv in Hc |- *; try reflexivity; discriminate. }
+    (* options *)
+    assert (split_options txt = ((name ++ " " ++ m ++ " " ++ G ++ String sep "")%string, opts)) as Hso.
+    { unfold txt.
+      replace (name ++ " " ++ m ++ " " ++ G ++ String sep opts)%string
+        with ((name ++ " " ++ m ++ " " ++ G) ++ String sep opts)%string
+        by (rewrite !append_assoc'; reflexivity).
+      rewrite (split_options_pre_sep sep); [|exact Hs3|rewrite !all_chars_app, Hnn, Hm, HG; reflexivity|exact Ho].
+      rewrite !append_assoc'. reflexivity. }
+    unfold card_of_text, cell_parts. fold txt. rewrite Hw, Hlk, Hso, Hfl. cbn [of_opt bind].
+    (* the body *)
+    destruct name as [|n0 name']; [discriminate|].
+    assert (is_blank n0 = false) as Hb0
+      by (cbn in Hnb; apply andb_true_iff in Hnb; destruct Hnb as [Hx _]; apply negb_true_iff in Hx; exact Hx).
+    rewrite (span_hd_fails is_blank) by exact Hb0.
+    set (name := String n0 name') in *.
+    change (name ++ " " ++ m ++ " " ++ G ++ String sep "")%string
+      with (name ++ String " " (m ++ String " " (G ++ String sep "")))%string.
+    rewrite (span_app_all is_digit name _ Hnd) by reflexivity.
+    change (String " " (m ++ String " " (G ++ String sep ""))) with (" " ++ (m ++ String " " (G ++ String sep "")))%string.
+    rewrite (span_app_all is_blank " " (m ++ String " " (G ++ String sep ""))); [|reflexivity|].
+    2:{ destruct m as [|c r]; [discriminate|]. cbn. cbn in Hmb. apply andb_true_iff in Hmb.
+        destruct Hmb as [Hx _]. apply negb_true_iff in Hx. exact Hx. }
+    rewrite (span_app_all (fun c => negb (is_blank c)) m (String " " (G ++ String sep "")) Hmb) by reflexivity.
+    unfold int_of_string. rewrite Hn. cbn [is_empty orb]. rewrite Hme, Hz. cbn [orb bind].
+    (* LIKE_RE *)
+    assert (all_chars nonletter (String " " (G ++ String sep "")) = true) as Hnl.
+    { cbn [all_chars]. rewrite all_chars_app. cbn [all_chars]. rewrite Hs2.
+      rewrite (all_chars_impl nos nonletter G); [reflexivity| |exact HG].
+      intros c Hc. unfold nos, nonletter in *. apply negb_true_iff in Hc. apply orb_false_iff in Hc.
+      destruct Hc as [_ Hc]. rewrite Hc. reflexivity. }
+    unfold name at 1. cbv beta iota. cbn [bind]. cbv beta iota.
+    rewrite (lower_keeps_nonletter _ Hnl), (like_target_none _ Hnl). reflexivity.
+  Qed.
+
 
   (* the same for a cell with a material: name, material number, density (a word
      without letter, star or opening parenthesis), geometry, options *)
